@@ -648,14 +648,18 @@ func c09Core(c *Ctx, CORE *ssa.Function, roles [4]int) {
 // c09Stores: the rules of one trust store entry; pi is the position of the store list among the validator's parameters.
 func c09Stores(c *Ctx, TS *ssa.Function, pi int) {
 	w := c.W
-	fi := w.Info(TS)
 	c.SeenFn(TS.String())
 	p := "param:" + TS.Params[pi].Name()
-	loop := findLoop(TS, func(d string) bool { return d == p })
-	if loop == nil {
+	// the loop over the trust stores: when several loops range over the list, the one on which the rules hold (c09BestLoop)
+	if !c09BestLoop(c, TS, p, func(c *Ctx, loop *loopRef) { c09StoreLoop(c, TS, p, loop) }) {
 		c.Bad("store/loop", "every listed trust store is validated", w.FnPos(TS), "no loop over the trust stores")
-		return
 	}
+}
+
+// c09StoreLoop: the rules of one trust store entry, decided on one loop over the store list p of TS.
+func c09StoreLoop(c *Ctx, TS *ssa.Function, p string, loop *loopRef) {
+	w := c.W
+	fi := w.Info(TS)
 	site := w.InstrPos(blockTerm(loop.Header))
 	m := Mode{Kind: mErr}
 	// The three rules of an entry are decided per completed iteration, as cut sets: an iteration can neither complete nor
@@ -668,8 +672,25 @@ func c09Stores(c *Ctx, TS *ssa.Function, pi int) {
 	part := func(k int) (string, string) {
 		return "call:strings.Cut(" + p + "[", fmt.Sprintf(`],const:":")#%d`, k)
 	}
+	// The same rules stated about the list as a whole — the validator cannot succeed unless the fact holds for every entry —
+	// are accepted as well: then the fact may be established by a loop of its own (the rules split over several loops
+	// over the list, one of them moved into a helper: c09Universal), the entry being the element at that loop's index.
+	forAll := func(b bool, n int, facts func(half func(k int) string) []func(string) bool) (bool, int) {
+		if b && n > 0 {
+			return b, n
+		}
+		b2, n2, _ := exitsBlockedQ(w, TS, m, c09NoFact, c09ForAll{list: p, elem: func(el string) EdgeSel {
+			return matchOf(facts(func(k int) string { return fmt.Sprintf(`call:strings.Cut(%s,const:":")#%d`, el, k) })...)
+		}})
+		if b2 && n2 > 0 {
+			return b2, n2
+		}
+		return b, n
+	}
+	is := func(l string) func(string) bool { return func(x string) bool { return x == l } }
 	a, z := part(2)
 	b, n := iterBlockedDeep(w, TS, loop, m, matchOf(pre("T("+a, z+")")))
+	b, n = forAll(b, n, func(half func(int) string) []func(string) bool { return []func(string) bool{is("T(" + half(2) + ")")} })
 	c.slot(b, n, "store/separator", "trust store entry: type:name separator present", site, "an entry without separator is accepted")
 	// known type: the type prefix equals an element of truststore.Types (slices.Contains over that list, or an equality
 	// with one of its elements), or one of the constants the list is initialised with
@@ -683,10 +704,20 @@ func c09Stores(c *Ctx, TS *ssa.Function, pi int) {
 		known = append(known, pre("EQ("+a, z+fmt.Sprintf(",const:%q)", k)))
 	}
 	b, n = iterBlockedDeep(w, TS, loop, m, matchOf(known...))
+	b, n = forAll(b, n, func(half func(int) string) []func(string) bool {
+		out := []func(string) bool{is("T(call:slices.Contains(" + types + "," + half(0) + "))"), pre("EQ(" + half(0) + "," + types + "[")}
+		for _, k := range c09StoreTypeConstants(w) {
+			out = append(out, is("EQ("+half(0)+fmt.Sprintf(",const:%q)", k)))
+		}
+		return out
+	})
 	c.slot(b, n, "store/known-type", "trust store entry: the type prefix passes the store-type test", site, "an entry of unknown type is accepted")
 	c.slot(n > 0, 1, "store/known-type/validator", "store-type test: true only for an element of truststore.Types", site, "no test of the type prefix that is true only for an element of truststore.Types (true for an unknown type)")
 	a, z = part(1)
 	b, n = iterBlockedDeep(w, TS, loop, m, matchOf(pre("T(call:ngo/internal/file.IsValidFileName("+a, z+"))")))
+	b, n = forAll(b, n, func(half func(int) string) []func(string) bool {
+		return []func(string) bool{is("T(call:ngo/internal/file.IsValidFileName(" + half(1) + "))")}
+	})
 	c.slot(b, n, "store/safe-name", "trust store entry: the name passes the certified file-name validator", site, "an entry whose name did not pass the file-name validator is accepted")
 	// success only after the loop
 	cut := map[edgeKey]bool{}
@@ -710,19 +741,27 @@ func fnByLabel(w *World, fn *ssa.Function, label string) *ssa.Function {
 // c09Identities: the identity rules; pi is the position of the identity list among the validator's parameters.
 func c09Identities(c *Ctx, TI *ssa.Function, pi int) {
 	w := c.W
-	fi := w.Info(TI)
 	c.SeenFn(TI.String())
 	p := "param:" + TI.Params[pi].Name()
 	wc, _ := w.constString("internal/trustpolicy", "Wildcard")
+	site := w.FnPos(TI)
+	// (at most one identity, or none of them is the wildcard: slices.Contains answering false or a loop over all of them)
+	ok, n, wit := exitsBlockedQ(w, TI, Mode{Kind: mErr}, c09AtMostOneOrNot(p, wc), c09NoneIs(p, wc))
+	c.slot(ok && n >= 2, n, "identity/wildcard-alone", "identities: the wildcard identity stands alone", site, "a wildcard next to other identities is accepted", wit...)
+	// the loop over the identities: when several loops range over the list (the wildcard rule spelled as a loop of its
+	// own), the one on which the rules of an identity hold (c09BestLoop)
+	if !c09BestLoop(c, TI, p, func(c *Ctx, loop *loopRef) { c09IdentityLoop(c, TI, p, loop) }) {
+		c.Bad("identity/loop", "every identity is validated", site, "no loop over the identities")
+	}
+}
+
+// c09IdentityLoop: the rules of one identity and the overlap rule, decided on one loop over the identity list p of TI.
+func c09IdentityLoop(c *Ctx, TI *ssa.Function, p string, loop *loopRef) {
+	w := c.W
+	fi := w.Info(TI)
+	wc, _ := w.constString("internal/trustpolicy", "Wildcard")
 	xs, _ := w.constString("internal/trustpolicy", "X509Subject")
 	site := w.FnPos(TI)
-	ok, n, wit := exitsBlockedDeep(w, TI, Mode{Kind: mErr}, anyOf("LE(len("+p+"),const:1)", fmt.Sprintf("F(call:slices.Contains(%s,const:%q))", p, wc)))
-	c.slot(ok && n >= 2, n, "identity/wildcard-alone", "identities: the wildcard identity stands alone", site, "a wildcard next to other identities is accepted", wit...)
-	loop := findLoop(TI, func(d string) bool { return d == p })
-	if loop == nil {
-		c.Bad("identity/loop", "every identity is validated", site, "no loop over the identities")
-		return
-	}
 	lsite := w.InstrPos(blockTerm(loop.Header))
 	id := p + "["
 	isWild := pre("EQ("+id, fmt.Sprintf("],const:%q)", wc))
@@ -1021,21 +1060,43 @@ func c09Scopes(c *Ctx, ociV *ssa.Function) {
 			uniq = &l
 		}
 	}
+	// several loops may range over the scopes of the statement (the checks split from the counting): the scope loop of
+	// the counting rules below is the one that holds the update of the counts
+	if outer != nil && inner != nil && uniq != nil {
+		in := loopBlocks(outer.Header)
+		for _, l := range allLoops(SC) {
+			l := l
+			if l.Header == outer.Header || !in[l.Header.Index] {
+				continue
+			}
+			if p, ok := c09ElemPath(w, SC, l.X, outer); !ok || p != ".RegistryScopes" {
+				continue
+			}
+			for bi := range loopBlocks(l.Header) {
+				for _, ins := range SC.Blocks[bi].Instrs {
+					if x, ok := ins.(*ssa.MapUpdate); ok && x.Map == uniq.X {
+						inner = &l
+					}
+				}
+			}
+		}
+	}
 	if outer == nil || inner == nil || uniq == nil {
 		c.Bad("scope/loops", "scope rules: loops over statements, their scopes and the scope counts", w.FnPos(SC), fmt.Sprintf("statements=%v scopes=%v counts=%v", outer != nil, inner != nil, uniq != nil))
 		return
 	}
 	osite := w.InstrPos(blockTerm(outer.Header))
 	sc := desc(inner.X)
-	// per statement: entering the scope loop requires non-empty scopes and wildcard alone
-	// (the gates may be written as one materialised condition or sit in a helper: c09GateCut)
-	toInner := func(sel EdgeSel) (bool, int) {
-		gc := c09GateCut(w, SC, sel, c09Depth)
-		return !fi.reachHit([]state{{outer.Body.Index, 0, -1}}, gc.cut, map[int]bool{inner.Header.Index: true}), gc.n
-	}
-	b, n := toInner(anyOf("NE(len("+sc+"),const:0)", "GT(len("+sc+"),const:0)", "GE(len("+sc+"),const:1)"))
+	// per statement: non-empty scopes and wildcard alone. A statement passes — its iteration of the statement loop
+	// completes, the document validator cannot succeed from inside it — only through an edge on which the rule's fact
+	// holds. Where the test stands does not matter (before the scope loop, after it, as one materialised condition, in
+	// a per-statement helper whose success the iteration requires: c09GateCutQ); that every statement has its
+	// iteration is scope/every-statement-visited.
+	// "The wildcard stands alone" is: at most one scope, or no scope is the wildcard — slices.Contains answering
+	// false, or the same thing spelled as a loop over all the scopes none of which equals the wildcard (c09Universal).
+	b, n := iterBlockedQ(w, SC, outer, m, anyOf("NE(len("+sc+"),const:0)", "GT(len("+sc+"),const:0)", "GE(len("+sc+"),const:1)"))
 	c.slot(b, n, "scope/present", "scopes: every statement has at least one registry scope", osite, "")
-	b, n = toInner(anyOf("LE(len("+sc+"),const:1)", fmt.Sprintf("F(call:slices.Contains(%s,const:%q))", sc, wc)))
+	b, n = iterBlockedQ(w, SC, outer, m, c09AtMostOneOrNot(sc, wc), c09NoneIs(sc, wc))
 	c.slot(b && n >= 2, n, "scope/wildcard-alone", "scopes: the wildcard scope stands alone", osite, "")
 	// success only through the statement loop
 	{
@@ -1051,32 +1112,53 @@ func c09Scopes(c *Ctx, ociV *ssa.Function) {
 	}
 	isite := w.InstrPos(blockTerm(inner.Header))
 	el := sc + "["
-	// the format validator: the module call in the scope loop that returns an error and is handed the scope
-	// (a function of the scope, or a method of an object that carries the compiled patterns)
-	var fmCall *ssa.Call
-	fmArg := -1
-	for bi := range loopBlocks(inner.Header) {
-		for _, in := range SC.Blocks[bi].Instrs {
-			call, ok := in.(*ssa.Call)
-			if !ok || !isErrorType(call.Type()) {
-				continue
+	// the format rule: every scope of the statement is the wildcard or passed the format validator — a module
+	// function that returns an error and is handed the scope (a function of the scope, or a method of an object that
+	// carries the compiled patterns), its error being nil. The fact is universal over the scopes of the statement: it is
+	// established by a loop over all of them each of whose iterations passes one of the two element facts — the scope
+	// loop of the validator itself, a second loop next to the one that counts, or a loop in a per-statement helper
+	// whose success the statement's iteration requires (c09Universal) — and a statement passes only through it.
+	type fmAt struct {
+		f   *ssa.Function
+		arg int
+	}
+	var fms []fmAt
+	fmOK := func(e string) EdgeSel {
+		wild := fmt.Sprintf("EQ(%s,const:%q)", e, wc)
+		return func(l string, _ *ssa.If, _ bool) bool {
+			if l == wild {
+				return true
 			}
-			g := staticCallee(call)
-			if g == nil || g.Blocks == nil || !w.IsProductFn(g) || len(call.Call.Args) != len(g.Params) {
-				continue
+			if !strings.HasPrefix(l, "EQ(call:") || !strings.HasSuffix(l, "#err,nil)") {
+				return false
 			}
-			for i, a := range call.Call.Args {
-				if strings.HasPrefix(desc(a), el) {
-					fmCall, fmArg = call, i
+			name, args, ok := c09ParseCall(strings.TrimSuffix(strings.TrimPrefix(l, "EQ("), "#err,nil)"))
+			if !ok {
+				return false
+			}
+			f := fnByFullName(w, name)
+			if f == nil || !w.IsProductFn(f) || len(f.Params) != len(args) {
+				return false
+			}
+			if r := f.Signature.Results(); r.Len() == 0 || !isErrorType(r.At(r.Len()-1).Type()) {
+				return false
+			}
+			for i, a := range args {
+				if a == e {
+					known := false
+					for _, x := range fms {
+						known = known || (x.f == f && x.arg == i)
+					}
+					if !known {
+						fms = append(fms, fmAt{f, i})
+					}
+					return true
 				}
 			}
+			return false
 		}
 	}
-	fmGate := "EQ(call:?)"
-	if fmCall != nil {
-		fmGate = "EQ(" + descTailErr(fmCall) + ",nil)"
-	}
-	b, n = iterBlockedDeep(w, SC, inner, m, matchOf(pre("EQ("+el, fmt.Sprintf("],const:%q)", wc)), func(l string) bool { return l == fmGate }))
+	b, n = iterBlockedQ(w, SC, outer, m, c09NoFact, c09ForAll{list: sc, elem: fmOK})
 	c.slot(b && n >= 2, n, "scope/format", "scopes: every non-wildcard scope has a valid repository format", isite, "a malformed scope is accepted")
 	// every scope (wildcard included) is counted on every completed inner iteration
 	var mu *ssa.MapUpdate
@@ -1125,11 +1207,16 @@ func c09Scopes(c *Ctx, ociV *ssa.Function) {
 	cut := map[edgeKey]bool{}
 	cutInto(fi, uniq.Header, cut)
 	c.slot(h && fi.successWitness(m, entryState(), cut) == nil, 1, "scope/unique", "scopes: a scope value is used by at most one statement", w.InstrPos(blockTerm(uniq.Header)), "a scope used twice is accepted")
-	// scope format function
-	if fmCall == nil {
-		return
+	// scope format function: every function whose "no error" was accepted as the format fact above
+	for _, x := range fms {
+		c09ScopeFormat(c, x.f, x.arg)
 	}
-	FM := staticCallee(fmCall)
+}
+
+// c09ScopeFormat: the rules of the scope format validator FM; fmArg is the position of the scope among its parameters.
+func c09ScopeFormat(c *Ctx, FM *ssa.Function, fmArg int) {
+	w := c.W
+	m := Mode{Kind: mErr}
 	c.SeenFn(FM.String())
 	fs := w.Summarize(FM, m)
 	p := "param:" + FM.Params[fmArg].Name()
